@@ -106,6 +106,7 @@ Fixpoint closed_aux (fuel : nat) (ls : list string) : Prop :=
       end
   end.
 Definition file_closed (ls : list string) : Prop := closed_aux (S (List.length ls)) ls.
+(** (no longer needed by the theorems: lines of included files are terminated by construction) *)
 Definition included_files_closed (fs : files) : Prop := Forall (fun f => file_closed (snd f)) fs.
 
 (** a simple sufficient condition for [file_closed]: no line is continued and the last one is
